@@ -236,7 +236,7 @@ func CheckLists(c Case, l interface {
 			ok = bytes.Equal(got[i].k, expect[i].k) && (got[i].v == nil || bytes.Equal(got[i].v, expect[i].v))
 		}
 		if !ok {
-			fail("%s returned keys %s, model expects %s (values must be the visible ones)", what, keysOf(got), keysOf(expect))
+			fail("%s returned %s, model expects %s", what, kvsOf(got), kvsOf(expect))
 		}
 		// non-triviality: >= 2 pages and a tombstone or a layer duplicate next to a page boundary
 		for _, b := range bounds {
@@ -297,6 +297,18 @@ func CheckLists(c Case, l interface {
 		}
 	}
 	return res
+}
+
+// kvsOf renders key=value pairs (value omitted when the encoding carries none).
+func kvsOf(v []vis) string {
+	s := make([]string, len(v))
+	for i := range v {
+		s[i] = h(v[i].k)
+		if v[i].v != nil {
+			s[i] += "=" + h(v[i].v)
+		}
+	}
+	return "[" + strings.Join(s, " ") + "]"
 }
 
 func keysOf(v []vis) string {
@@ -460,7 +472,6 @@ func Classify(c Case, res Result) {
 	lib.ClassN("pages", res.Pages)
 	lib.ClassN("listseek_probes", res.Seeks)
 }
-
 
 func Clone(b []byte) []byte {
 	if b == nil {
